@@ -4,7 +4,11 @@ missing / partially missing calls, interleaved and nested phase sets, several ch
 A case is JSON-serialisable (replay never needs the PRNG):
   {"contigs": {name: length}, "samples": [...], "ploidy": p, "kind": "PS"|"HP",
    "records": [{"chrom", "pos" (1-based), "ref", "alts": [..], "format": [keys], "calls": [[values]]}],
-   "only_snvs": bool, "chromosomes": [args of --chromosome] , "sample": name|None}
+   "only_snvs": bool, "chromosomes": [args of --chromosome] , "sample": name|None,
+   "indexed": bool (the file is bgzipped + tabix-indexed before the run: `parse_variant_tables` then fetches the given
+   chromosomes in the given order), "chr_lengths": None | [[name, length], ...] (lines of the --chr-lengths file),
+   "kinds": {chrom: "PS"|"HP"} (phasing encoding per chromosome; "kind" = the file-level summary)}
+A contig length of None is a `##contig` line without length.
 """
 BASES = "ACGT"
 
@@ -20,7 +24,7 @@ HEADER_FORMATS = [
 def vcf_text(case):
     out = ["##fileformat=VCFv4.2", '##FILTER=<ID=PASS,Description="All filters passed">']
     for n, ln in case["contigs"].items():
-        out.append(f"##contig=<ID={n},length={ln}>")
+        out.append(f"##contig=<ID={n},length={ln}>" if ln is not None else f"##contig=<ID={n}>")
     out += HEADER_FORMATS
     out.append("\t".join(["#CHROM", "POS", "ID", "REF", "ALT", "QUAL", "FILTER", "INFO", "FORMAT"] + case["samples"]))
     for r in case["records"]:
@@ -30,10 +34,16 @@ def vcf_text(case):
     return "\n".join(out) + "\n"
 
 
-def gen_alleles(rng):
-    kind = rng.choice(["snv"] * 7 + ["ins", "del", "mnp", "multi", "noalt"])
+def gen_alleles(rng, exotic=False):
+    kind = rng.choice(["snv"] * 7 + ["ins", "del", "mnp", "multi", "noalt"] + (["star", "sym", "same"] if exotic else []))
     ref = rng.choice(BASES)
     other = [b for b in BASES if b != ref]
+    if kind == "star":        # spanning deletion: one character, the reader and is_snv() take it for a base
+        return ref, ["*"]
+    if kind == "sym":
+        return ref, ["<DEL>"]
+    if kind == "same":        # ALT = REF (not a variant; kept by --only-snvs, not an SNV for is_snv())
+        return ref, [ref]
     if kind == "snv":
         return ref, [rng.choice(other)]
     if kind == "ins":
@@ -83,11 +93,17 @@ def gen_call(rng, case_kind, ploidy, n_alt, sets, has_ps_key, exotic, pos, dense
 
 
 def gen_case(rng, scale=1, exotic=True):
-    n_contigs = rng.choice([1, 2, 2, 3])
+    n_contigs = rng.choice([1, 2, 2, 3, 3, 4])
     contigs = {f"chr{i + 1}": rng.randrange(3000, 20000) for i in range(n_contigs)}
     samples = [f"S{i + 1}" for i in range(rng.choice([1, 1, 2, 3]))]
-    ploidy = rng.choice([2, 2, 2, 3, 4])
+    ploidy = rng.choice([2, 2, 2, 3, 4] + ([1, 5, 6] if exotic else []))
     kind = rng.choice(["PS", "PS", "HP"])
+    # the reader's `phase_detected` is per chromosome: a file may use PS on one chromosome and HP on another
+    kinds = {c: kind for c in contigs}
+    if exotic and n_contigs > 1 and rng.random() < 0.2:
+        kinds = {c: rng.choice(["PS", "HP"]) for c in contigs}
+        if len(set(kinds.values())) > 1:
+            kind = "mixed"
     records = []
     unsorted_file = rng.random() < 0.03
     for chrom, ln in contigs.items():
@@ -104,26 +120,52 @@ def gen_case(rng, scale=1, exotic=True):
             contiguous = True
         else:
             contiguous = False
+        ckind = kinds[chrom]
         for idx, pos in enumerate(positions):
-            ref, alts = gen_alleles(rng)
-            has_ps_key = kind == "PS" and not (exotic and rng.random() < 0.08)
-            fmt = ["GT"] + (["HP"] if kind == "HP" else (["PS"] if has_ps_key else []))
+            ref, alts = gen_alleles(rng, exotic)
+            has_ps_key = ckind == "PS" and not (exotic and rng.random() < 0.08)
+            fmt = ["GT"] + (["HP"] if ckind == "HP" else (["PS"] if has_ps_key else []))
             calls = []
             for s in samples:
                 ss = sets[s]
                 if contiguous and ss:
                     ss = [ss[min(len(ss) - 1, idx * len(ss) // max(1, len(positions)))]]
-                calls.append(gen_call(rng, kind, ploidy, len(alts), ss, has_ps_key, exotic, pos, dense))
+                calls.append(gen_call(rng, ckind, ploidy, len(alts), ss, has_ps_key, exotic, pos, dense))
             if rng.random() < 0.3:
                 fmt = fmt + ["DP"]
                 calls = [c + [str(rng.randrange(1, 60))] for c in calls]
             records.append({"chrom": chrom, "pos": pos, "ref": ref, "alts": alts, "format": fmt, "calls": calls})
     chroms = []
-    if rng.random() < 0.3:
+    if rng.random() < 0.4:
         names = list(contigs)
         k = rng.randrange(1, len(names) + 1)
         pick = rng.sample(names, k)
+        if len(names) >= 3 and rng.random() < 0.35:     # skip the first chromosome(s): seen ≠ processed when the exit test runs
+            pick = names[rng.randrange(1, len(names) - 1):]
+            if rng.random() < 0.5:
+                pick.reverse()
+        if exotic:
+            if rng.random() < 0.3:       # a name given twice (in front: it is fetched again before the early exit can fire)
+                pick.insert(0 if rng.random() < 0.6 else rng.randrange(len(pick) + 1), rng.choice(pick))
+            if rng.random() < 0.15:
+                pick.insert(rng.randrange(len(pick) + 1), "chrX")                # not in the file
+            if rng.random() < 0.15:
+                pick.insert(rng.randrange(len(pick) + 1), "")                    # empty entry
         chroms = [",".join(pick)] if rng.random() < 0.4 else pick
-    return {"contigs": contigs, "samples": samples, "ploidy": ploidy, "kind": kind, "records": records,
+    # header without (some) contig lengths; --chr-lengths file (a subset, other values, other names, a name twice)
+    if exotic and rng.random() < 0.25:
+        for c in contigs:
+            if rng.random() < 0.5:
+                contigs[c] = None
+    chr_lengths = None
+    if rng.random() < 0.3:
+        chr_lengths = [[c, rng.choice([1, 50, 500, 3000, 20000, 10 ** 6])] for c in contigs if rng.random() < 0.85]
+        if exotic and rng.random() < 0.3:
+            chr_lengths.append(["chrOther", 12345])
+        if exotic and chr_lengths and rng.random() < 0.3:
+            chr_lengths.append([chr_lengths[0][0], rng.choice([1, 700, 40000])])
+        rng.shuffle(chr_lengths)
+    return {"contigs": contigs, "samples": samples, "ploidy": ploidy, "kind": kind, "kinds": kinds, "records": records,
             "only_snvs": rng.random() < 0.3, "chromosomes": chroms,
-            "sample": rng.choice(samples) if rng.random() < 0.3 else None, "exotic": exotic}
+            "sample": rng.choice(samples) if rng.random() < 0.3 else None, "exotic": exotic,
+            "indexed": (not unsorted_file) and rng.random() < (0.55 if chroms else 0.3), "chr_lengths": chr_lengths}
